@@ -395,3 +395,18 @@ Theorem C16_tie_gen_methods_return : forall (s : st) (n : Z) (d : list Z) (c : n
   result (exec (fuel_of s) gen_until (env0 n d c f) s) <> None.
 Proof. intros s n d c f. rewrite tie_receive, tie_exactly, tie_until. repeat split; discriminate. Qed.
 Print Assumptions C16_tie_gen_methods_return.
+
+(* ---- tie T, text half: TextReceiveStream.receive and TextSendStream.send as tools/translate_text.py regenerates them
+        from src/anyio/streams/text.py (pure/TextGen.v; language pure/TextImp.v), interpreted, ARE Text.tstep: same decoder /
+        encoder state, same chunks left in the transport, same result - for every encoding, decoder state, chunk list and
+        item.  The constructors (ONE incremental decoder / encoder object per stream: F10) and the delegating methods are
+        checked literally by the translator.  Trusted: the translator's tables; `codecs` as modelled in Text.v. ---- *)
+From AV Require Import TextImp TextGen TextGenEq.
+
+Theorem C16_tie_text_receive : forall (s : tst), g_receive gen_text_receive s = Some (tstep s TRecv).
+Proof. exact tie_text_receive. Qed.
+Print Assumptions C16_tie_text_receive.
+
+Theorem C16_tie_text_send : forall (s : tst) (x : list Z), g_send gen_text_send s x = Some (tstep s (TSend x)).
+Proof. exact tie_text_send. Qed.
+Print Assumptions C16_tie_text_send.
